@@ -159,6 +159,16 @@ func GenDecoderZoo(r *R, idx int) (*ir.Request, []ZooMsg) {
 	for _, z := range zoo {
 		svc.Methods = append(svc.Methods, &ir.Method{Name: z.RPC, Input: P + z.Name, Output: P + "Reply", Config: &ir.HTTPConfig{Path: z.Path, Method: z.Verb}})
 	}
+	// body-verb RPCs whose request has NO field left for the body (every field is a path variable; no field at all): a
+	// body sent to them is still decoded — a malformed one is refused like anywhere else
+	f.Messages = append(f.Messages,
+		&ir.Message{Name: "TouchReq", Fields: []*ir.Field{{Name: "id", Number: 1, Kind: "string"}}},
+		&ir.Message{Name: "MoveReq", Fields: []*ir.Field{{Name: "id", Number: 1, Kind: "string"}, {Name: "slot", Number: 2, Kind: "int32"}}},
+		&ir.Message{Name: "PingReq"})
+	svc.Methods = append(svc.Methods,
+		&ir.Method{Name: "Touch", Input: P + "TouchReq", Output: P + "Reply", Config: &ir.HTTPConfig{Path: "/touch/{id}", Method: "PUT"}},
+		&ir.Method{Name: "Move", Input: P + "MoveReq", Output: P + "Reply", Config: &ir.HTTPConfig{Path: "/move/{id}/{slot}", Method: "POST"}},
+		&ir.Method{Name: "Ping", Input: P + "PingReq", Output: P + "Reply", Config: &ir.HTTPConfig{Path: "/ping", Method: "POST"}})
 	// a bodiless RPC: its body must never be looked at
 	svc.Methods = append(svc.Methods, &ir.Method{Name: "Peek", Input: P + "PeekReq", Output: P + "Reply", Config: &ir.HTTPConfig{Path: "/peek", Method: "GET"}})
 	f.Services = append(f.Services, svc)
